@@ -32,13 +32,13 @@ pub enum Case {
 
 /// lean state for the tail runs: no sink, no lock - score is 0 for the starting vector and
 /// -d for anything else
-struct TailState {
+pub struct TailState {
     vals: Vec<packing::SharedValue>,
     start: Vec<u64>,
     d: f64,
 }
 impl TailState {
-    fn new(d: f64) -> Self {
+    pub fn new(d: f64) -> Self {
         let vals: Vec<packing::SharedValue> = vec![packing::SharedValue::new(0.), packing::SharedValue::new(0.)];
         TailState { start: vals.iter().map(|v| v.get_value().to_bits()).collect(), vals, d }
     }
